@@ -1,5 +1,5 @@
 /- L0 facts about PercentagePriceOscillator::reset (split from Lemmas/PercentagePriceOscillator.lean so that a change to one method only invalidates the facts about that method) -/
-import TaRs.Lemmas.PercentagePriceOscillator
+import TaRs.Lemmas.Core.PercentagePriceOscillator
 import TaRs.Lemmas.Reset.ExponentialMovingAverage
 set_option linter.unusedSectionVars false
 namespace TaRs.Gen.PercentagePriceOscillator
